@@ -66,7 +66,11 @@ inline constexpr std::intmax_t B32 = std::intmax_t(1) << 32;
 inline constexpr std::intmax_t B62 = std::intmax_t(1) << 62;
 )";
 
-bool compiles(std::string const& tag, std::string const& body, std::string& first_error)
+enum class Cc { ok, error, infra };
+
+/// One compiler run.  `infra` = the compiler did not give a verdict (killed, out of memory,
+/// internal error, no diagnostics at all): never interpreted as ill-formed code.
+Cc compile_once(std::string const& tag, std::string const& body, std::string& first_error)
 {
     std::string const dir  = std::string(MC_VERIF_DIR) + "/build/c15_probe";
     std::string const file = dir + "/" + tag + ".cpp";
@@ -75,7 +79,7 @@ bool compiles(std::string const& tag, std::string const& body, std::string& firs
     std::FILE* f = std::fopen(file.c_str(), "w");
     if (f == nullptr) {
         first_error = "cannot write " + file;
-        return false;
+        return Cc::infra;
     }
     std::fputs(prelude, f);
     std::fputs(body.c_str(), f);
@@ -83,19 +87,25 @@ bool compiles(std::string const& tag, std::string const& body, std::string& firs
     std::fclose(f);
     auto const log = run(std::string("g++ -std=c++2b -fsyntax-only -w -I") + MC_REPO_INCLUDE + " -I" + MC_VERIF_DIR + "/harness " + file, rc);
     std::remove(file.c_str());
-    if (rc != 0) {
-        auto pos = log.find("error:");
-        if (pos == std::string::npos) {
-            first_error = log.substr(0, 200);
-        } else {
-            auto end    = log.find('\n', pos);
-            first_error = log.substr(pos, end == std::string::npos ? std::string::npos : end - pos);
-            // strip absolute paths so that the text is the same for every repository location
-            std::string const inc = MC_REPO_INCLUDE;
-            for (auto p = first_error.find(inc); p != std::string::npos; p = first_error.find(inc)) { first_error.erase(p, inc.size() + 1); }
-        }
+    if (rc == 0) { return Cc::ok; }
+    auto const pos = log.find(" error: ");
+    bool const sick = log.find("internal compiler error") != std::string::npos || log.find("fatal error") != std::string::npos
+                   || log.find("terminated program") != std::string::npos || log.find("Killed") != std::string::npos
+                   || log.find("out of memory") != std::string::npos || log.find("cannot allocate") != std::string::npos;
+    if (pos == std::string::npos || sick) {
+        first_error = "compiler gave no verdict: " + log.substr(0, 200);
+        return Cc::infra;
     }
-    return rc == 0;
+    auto const end = log.find('\n', pos);
+    first_error    = log.substr(pos + 1, end == std::string::npos ? std::string::npos : end - pos - 1);
+    return Cc::error;
+}
+
+Cc compile(std::string const& tag, std::string const& body, std::string& first_error)
+{
+    Cc c = Cc::infra;
+    for (int attempt = 0; attempt < 4 && c == Cc::infra; ++attempt) { c = compile_once(tag + "_" + std::to_string(attempt), body, first_error); }
+    return c;
 }
 
 void run_probes(mc::Reporter& r, std::string const& job, std::vector<Probe> const& probes)
@@ -111,7 +121,16 @@ void run_probes(mc::Reporter& r, std::string const& job, std::vector<Probe> cons
         std::string const tag = job + "_" + std::to_string(i) + "_" + std::to_string(int(getpid()));
         std::string err;
         r.count("probes");
-        if (compiles(tag + "a", "static_assert(" + p.equal_expr + ");", err)) {
+        auto infra = [&](std::string const& what) {
+            r.count("probes_without_verdict");
+            r.not_exhaustive("compiler gave no verdict for a probe (" + p.subject + " with " + p.kase + "): " + what);
+        };
+        Cc const a = compile(tag + "a", "static_assert(" + p.equal_expr + ");", err);
+        if (a == Cc::infra) {
+            infra(err);
+            continue;
+        }
+        if (a == Cc::ok) {
             r.count("evaluations");
             r.count("distinct_nontrivial");
             r.outcome(mc::hash_str(p.subject + p.kase));
@@ -119,18 +138,28 @@ void run_probes(mc::Reporter& r, std::string const& job, std::vector<Probe> cons
             continue;
         }
         std::string err_std;
-        if (!compiles(tag + "b", "constexpr auto probe_std = (" + p.std_expr + ");", err_std)) {
+        Cc const b = compile(tag + "b", "constexpr auto probe_std = (" + p.std_expr + ");", err_std);
+        if (b == Cc::infra) {
+            infra(err_std);
+            continue;
+        }
+        if (b == Cc::error) {
             r.count("skipped_std_ill_formed");
             r.note("std side not well-formed, probe outside the property: " + p.subject + " with " + p.kase + " (" + err_std + ")");
             continue;
         }
+        std::string err_etl;
+        Cc const c = compile(tag + "c", "constexpr auto probe_etl = (" + p.etl_expr + ");", err_etl);
+        if (c == Cc::infra) {
+            infra(err_etl);
+            continue;
+        }
         r.count("evaluations");
         r.count("distinct_nontrivial");
-        std::string err_etl;
-        if (!compiles(tag + "c", "constexpr auto probe_etl = (" + p.etl_expr + ");", err_etl)) {
+        if (c == Cc::error) {
             r.violation("C15", p.subject, p.cls, p.subject + " with " + p.kase, "std is well-formed, etl does not compile: " + err_etl);
         } else {
-            r.violation("C15", p.subject, p.cls, p.subject + " with " + p.kase, "etl and std both compile and yield different values: " + err);
+            r.violation("C15", p.subject, p.cls, p.subject + " with " + p.kase, "etl and std both compile and yield different values (" + err + ")");
         }
     }
 }
